@@ -133,7 +133,9 @@ class FeatureEdgeDetector(Worker):
         if self.only_border : return feature_attr
         DOT_THRESHOLD = 0.2
         if mesh.edges.has_attribute("hard_edges"):
-            for e in mesh.edges.get_attribute("hard_edges"):
+            hard_edges = mesh.edges.get_attribute("hard_edges")
+            for e in mesh.id_edges: # sparse or dense attribute; edges explicitly set to False are not hard
+                if not hard_edges[e]: continue
                 A,B = mesh.edges[e]
                 T1,T2 = mesh.connectivity.edge_to_faces(A,B)
                 if T1 is None or T2 is None : continue
